@@ -20,11 +20,12 @@ THEOREMS = ["Cxx.C12_fold_append", "Cxx.C12_extern_transparent", "Cxx.C12_open_s
 ANCHORS = ["parser.py:CxxParser.parse", "parser.py:CxxParser._parse_declarations", "parser.py:CxxParser._parse_namespace",
            "parser.py:CxxParser._parse_extern", "parser.py:CxxParser._parse_template", "parser.py:CxxParser._parse_friend_decl",
            "parser.py:CxxParser._parse_class_decl", "parser.py:CxxParser._finish_class_decl", "parser.py:CxxParser._process_access_specifier",
+           "parser.py:CxxParser._on_block_end", "parser.py:CxxParser._pop_state", "parser.py:CxxParser._push_state", "parser.py:CxxParser._finish_class_or_enum",
            "simple.py:SimpleCxxVisitor", "lexer.py:LexerTokenStream", "lexer.py:TokenStream"]
 RULE = ("pairs and triples of complete declaration sequences drawn from: the test corpus (inputs that parse alone), AST-first "
         "programs, documented programs (C11 generator), each optionally wrapped in `namespace a`, `namespace a::b`, `namespace b`, "
         "`inline namespace a`, `extern \"C\"`; at namespace scope, inside a namespace body, and (member sequences behind an explicit "
-        "access specifier) inside a class body; expected = pure scope-wise merge of the individual results with B's anonymous ids "
+        "access specifier) inside a class body; closed blocks of every kind followed by a documented declaration; expected = pure scope-wise merge of the individual results with B's anonymous ids "
         "shifted by the number A allocated; non-trivial = both sides contribute at least one declaration")
 CARRIED_BY = {
     "one iteration of parse()'s own loop, on the regenerated rules / dispatch table / keep set: at `namespace n1::…::nk {` (after any comments and blank lines) it finds the doc text, opens one block with exactly the written names and that text, changes nothing else and hands NO doc text to the next iteration": "theorems C12_toplevel_namespace, mainBody_item (Theorems/TopLevel.lean)",
@@ -318,6 +319,45 @@ def run(ctx):
         exp = merge_data(da, db, ka)
         if got != exp:
             fails3.append({"input": whole, "parts": [a, b], "diff": first_diff(got, exp)})
+    # a closed block of any kind, directly (or after one blank line) followed by a documented declaration:
+    # the block's end must not cost the follower its documentation, nor give it anything else
+    fails4 = []
+    blocks = ['extern "C" {\n%s\n}', 'extern "C++" {\n%s\n}', 'namespace bn%d {\n%s\n}', 'namespace {\n%s\n}', 'inline namespace bi%d {\n%s\n}',
+              'struct BS%d {\n%s\n};', 'class BK%d {\npublic:\n%s\n};', 'enum BE%d {\nbe%d\n};', 'namespace ba%d { extern "C" {\n%s\n} }',
+              'extern "C" { namespace bb%d {\n%s\n} }', 'void bfn%d() {\n}', 'template <typename T> struct BT%d {\n%s\n};', 'extern "C" {\n%s\n};',
+              'namespace bo%d { namespace bp%d {\n%s\n} }', 'union BU%d {\n%s\n};']
+    docs = ["/// doc %d", "//! doc %d", "/** doc %d */", "/*! doc %d */", "/// doc %d\n/// more %d", "/**\n * doc %d\n */"]
+    followers = ["int fv%d;", "void ff%d(int a);", "struct FS%d { int m; };", "namespace fn%d { int q; }", "using FA%d = int;", "typedef int ft%d;",
+                 "enum FE%d { fe%d };", "struct FF%d;", "template <typename T> void ft%d(T t);", "extern \"C\" int fc%d();", "static int fs%d = 1, fs2_%d;",
+                 "class FK%d { public: int m; };"]
+    n5 = ctx.budget(250, 6000)
+    for i in range(n5):
+        blk = rng.choice(blocks)
+        nfmt = blk.count("%d") + blk.count("%s")
+        args = []
+        for m in __import__("re").finditer(r"%[ds]", blk):
+            args.append(i if m.group(0) == "%d" else "int bi%d_%d;" % (i, len(args)))
+        a = blk % tuple(args)
+        dtxt = rng.choice(docs)
+        dtxt = dtxt % tuple([i] * dtxt.count("%d"))
+        f = rng.choice(followers)
+        f = f % tuple([i] * f.count("%d"))
+        b = dtxt + "\n" + f
+        sep = rng.choice(["\n", "\n\n", "\n// plain\n\n"])
+        scope = rng.choice(["%s", "%s", "namespace W {\n%s\n}\n", "extern \"C\" {\n%s\n}\n"])
+        whole = scope % (a + sep + b)
+        ctx.count(whole, nontrivial=True)
+        try:
+            da, ka = parse_counting(scope % a)
+            db, kb = parse_counting(scope % b)
+            got, _ = parse_counting(whole)
+        except CxxParseError as e:
+            fails4.append({"input": whole, "diff": "rejected: %s" % e})
+            continue
+        exp = merge_data(da, db, ka)
+        if got != exp:
+            fails4.append({"input": whole, "parts": [a, b], "diff": first_diff(got, exp)})
+    ctx.oracle("block_then_documented", n5, fails4)
     ctx.oracle("compose_after_comment", n4, fails3)
     ctx.oracle("nested_equiv", n3, fails1)
     ctx.oracle("extern_transparent", n3, fails2)
